@@ -22,7 +22,7 @@ from . import c06, c10
 
 PROFILE = {"vmerge": 0.0, "point_comment": 0.0, "hyperlink": 0.03, "comment": 0.2, "header": 0.5, "footer": 0.4, "table": 0.25,
            "sect_break": 0.1, "para_mark_rev": 0.2}
-PROFILES = {"default": PROFILE, "no_comments": dict(PROFILE, comment=0.0)}
+PROFILES = {"default": PROFILE, "no_comments": dict(PROFILE, comment=0.0), "no_headings": dict(PROFILE, heading=0.0)}
 STORY = re.compile(r"^word/(document|header\d*|footer\d*)\.xml$")
 COMMENT_PART = re.compile(r"^word/comments\w*\.xml$")
 PNG = bytes.fromhex("89504e470d0a1a0a0000000d4948445200000001000000010802000000907753de0000000c4944415408d763f8cfc000000301010018dd8db00000000049454e44ae426082")
@@ -132,6 +132,10 @@ def work(case):
     if "doc" not in case:
         doc, feats, rng = gen.gen_document(case["seed"], case["index"], PROFILES[case["profile"]])
         feats = list(feats) + add_optional_parts(rng, doc)
+        if case.get("stream") == "no_headings":
+            # a document whose styles part does not define the built-in heading styles (usual for files made in Word)
+            doc["styles_variant"] = "no_headings"
+            feats.append("no_heading_styles")
         case = dict(case, doc=doc, features=sorted(feats), drop_seed=rng.randint(0, 1 << 30))
     else:
         rng = random.Random(case.get("index", 0))
@@ -142,9 +146,15 @@ def work(case):
     op = case.get("op")
     if op is None:
         kind = rng.choice(["edits", "edits", "edits", "actions", "replies", "accept_all", "mixed"])
+        if case.get("stream") == "no_headings":
+            kind = "edits"
         op = {"kind": kind}
         if kind in ("edits", "mixed"):
             op["edits"] = editgen.gen_mixed_batch(rng, doc, texts, rng.randint(1, 3), comment_p=0.5)
+            if case.get("stream") == "no_headings":
+                op["edits"] += [e for e in editgen.gen_batch(rng, doc, texts, 1, ["heading"]) if not any(e["pi"] == y.get("pi") for y in op["edits"])]
+                for e in op["edits"]:
+                    e.setdefault("locatable", True)
             if rng.random() < 0.4:
                 # new paragraphs / a heading in front of a paragraph (the first paragraph of the body behind a header)
                 op["edits"] += [e for e in editgen.gen_block_prefix_edit(rng, doc, texts)
@@ -320,7 +330,7 @@ def nontrivial(res):
 def run(tier, seed, driver_ok):
     return doccheck.run_doc_check(
         "C11", tier, seed, driver_ok, n_quick=300, n_thorough=5000,
-        profiles=[("default", PROFILES["default"], 3), ("no_comments", PROFILES["no_comments"], 1)],
+        profiles=[("default", PROFILES["default"], 3), ("no_comments", PROFILES["no_comments"], 1), ("no_headings", PROFILES["no_headings"], 1)],
         work=work, oracle=oracle, driver_line=driver_line, compare=compare, classify=classify, nontrivial=nontrivial,
         rule=("generated packages: the template's parts with some optional ones removed (custom XML, theme, web settings, "
               "styles with effects, numbering, font table) and others added (media, embedded object, footnotes, custom XML, a "
